@@ -127,6 +127,7 @@ type frame struct {
 	panicking        bool
 	panic            interface{}
 	phitemps         []value // temporaries for parallel phi assignment
+	depth            int     // number of interpreted frames below this one
 }
 
 func (fr *frame) get(key ssa.Value) value {
@@ -696,6 +697,15 @@ func callSSA(i *interpreter, caller *frame, callpos token.Pos, fn *ssa.Function,
 		i:      i,
 		caller: caller, // for panic/recover
 		fn:     fn,
+	}
+	if caller != nil {
+		fr.depth = caller.depth + 1
+		// the deepest legitimate nesting (recursion to jqawk's call-depth limit, JSON nested
+		// to the decoder's limit) stays well below this; unbounded recursion in the code under
+		// test must end the path, not the checker
+		if fr.depth > 60000 && i.eng != nil {
+			panic(unsupported{"step budget exhausted (interpreted call depth: unbounded recursion?)"})
+		}
 	}
 	fi := infoOf(fn)
 	if fn.Parent() == nil {
